@@ -813,3 +813,355 @@ def c_item_stop(repo):
     tup = _first(fn, lambda x: isinstance(x, ast.Tuple) and any(isinstance(e, ast.Constant) and e.value == 'end' for e in x.elts))
     tup.elts = [e for e in tup.elts if not (isinstance(e, ast.Constant) and e.value == 'end')]
     return {'reader': src(t)}
+
+
+# ---- positions (C13)
+
+@control(['C13'], 'concatenation-takes-right-position', ['R13.b'], 'let token concatenation take the position of the right operand')
+def c_add_pos(repo):
+    t = parse(repo, 'utils')
+    fn = find_func(t, '__add__', cls='Token')
+
+    def pred(n):
+        return isinstance(n, ast.Attribute) and n.attr == 'position' and isinstance(n.value, ast.Name) and n.value.id == 'self'
+
+    def make(n):
+        n.value = ast.Name(fn.args.args[1].arg, ast.Load())
+        return n
+    replace_expr(fn, pred, make)
+    return {'utils': src(t)}
+
+
+@control(['C13'], 'command-position-from-name', ['R13.c'], 'record the position of the command name instead of the backslash')
+def c_cmd_pos(repo):
+    t = parse(repo, 'reader')
+    fn = find_func(t, 'read_expr')
+    for n in ast.walk(fn):
+        if isinstance(n, ast.Call) and isinstance(n.func, ast.Name) and n.func.id == 'TexCmd':
+            for k in n.keywords:
+                if k.arg == 'position' and isinstance(k.value, ast.Attribute):
+                    k.value = ast.Attribute(ast.Name('name', ast.Load()), 'position', ast.Load())
+                    return {'reader': src(t)}
+    raise NotApplicable('TexCmd position')
+
+
+@control(['C13'], 'regex-offset-without-match-start', ['R13.d'], 'report regex matches at the position of their leaf')
+def c_regex_pos(repo):
+    t = parse(repo, 'data')
+    fn = find_func(t, 'search_regex', cls='TexNode')
+
+    def pred(n):
+        return isinstance(n, ast.BinOp) and isinstance(n.op, ast.Add) and 'position' in ast.unparse(n.left)
+    replace_expr(fn, pred, lambda n: n.left)
+    return {'data': src(t)}
+
+
+# ---- renaming (C14)
+
+@control(['C14'], 'env-serialiser-prints-stored-closer', ['R14.a'], 'print the construction-time copy of the closing delimiter')
+def c_env_end_copy(repo):
+    t = parse(repo, 'data')
+    fn = find_func(t, '__str__', cls='TexEnv')
+
+    def pred(n):
+        return isinstance(n, ast.Attribute) and n.attr == 'end' and isinstance(n.value, ast.Name) and n.value.id == 'self'
+
+    def make(n):
+        n.attr = '_end'
+        return n
+    replace_expr(fn, pred, make)
+    return {'data': src(t)}
+
+
+@control(['C14'], 'name-setter-writes-wrapper', ['R14.b'], 'let the node name setter write the wrapper instead of the expression')
+def c_name_setter(repo):
+    t = parse(repo, 'data')
+    for fn in find_funcs(t, 'name', 'TexNode'):
+        if any(isinstance(d, ast.Attribute) and d.attr == 'setter' for d in fn.decorator_list):
+            a = _first(fn, lambda n: isinstance(n, ast.Assign))
+            a.targets = [ast.Attribute(ast.Name('self', ast.Load()), '_name', ast.Store())]
+            return {'data': src(t)}
+    raise NotApplicable('name setter')
+
+
+@control(['C14', 'C18'], 'argument-slice-is-plain-list', ['R18.d'], 'return plain lists from argument-list slices')
+def c_args_slice(repo):
+    t = parse(repo, 'data')
+    fn = find_func(t, '__getitem__', cls='TexArgs')
+    remove_stmt(fn, lambda s_: isinstance(s_, ast.If) and 'isinstance' in ast.unparse(s_.test))
+    return {'data': src(t)}
+
+
+# ---- views and search (C03, C04)
+
+@control(['C03', 'C04'], 'children-view-narrowed', ['R04.a'], 'narrow the children filter to named environments and commands')
+def c_children_narrow(repo):
+    t = parse(repo, 'data')
+    for fn in find_funcs(t, 'children', 'TexExpr'):
+        try:
+            replace_expr(fn, lambda n: isinstance(n, ast.Name) and n.id == 'TexEnv', lambda n: ast.Name('TexNamedEnv', ast.Load()))
+            return {'data': src(t)}
+        except NotApplicable:
+            continue
+    raise NotApplicable('children filter')
+
+
+@control(['C03', 'C04'], 'content-list-skips-arguments', ['R04.b'], 'leave argument groups out of the complete content list')
+def c_all_noargs(repo):
+    t = parse(repo, 'data')
+    for fn in find_funcs(t, 'all', 'TexExpr'):
+        try:
+            remove_stmt(fn, lambda s_: isinstance(s_, ast.For) and 'args' in ast.unparse(s_.iter))
+            return {'data': src(t)}
+        except NotApplicable:
+            continue
+    raise NotApplicable('args loop')
+
+
+@control(['C03', 'C04'], 'descendants-do-not-recurse', ['R03.a'], 'enumerate only the children\'s contents, not their descendants')
+def c_desc(repo):
+    t = parse(repo, 'data')
+    fn = None
+    for st_ in t.body:
+        if isinstance(st_, ast.ClassDef) and st_.name == 'TexNode':
+            for x in st_.body:
+                if isinstance(x, ast.FunctionDef) and x.name.endswith('descendants') and x.name.startswith('__'):
+                    fn = x
+    if fn is None:
+        raise NotApplicable('descendants helper')
+
+    def pred(n):
+        return isinstance(n, ast.Attribute) and n.attr == 'descendants'
+
+    def make(n):
+        n.attr = 'contents'
+        return n
+    replace_expr(fn, pred, make)
+    return {'data': src(t)}
+
+
+@control(['C03'], 'count-counts-children', ['R03.b'], 'count matches among the children instead of all descendants')
+def c_count(repo):
+    t = parse(repo, 'data')
+    fn = find_func(t, 'count', cls='TexNode')
+
+    def pred(n):
+        return isinstance(n, ast.Call) and isinstance(n.func, ast.Attribute) and n.func.attr == 'find_all'
+    replace_expr(fn, pred, lambda n: ast.Attribute(ast.Name('self', ast.Load()), 'children', ast.Load()))
+    return {'data': src(t)}
+
+
+@control(['C03', 'C14'], 'match-compares-stored-opening', ['R03.c'], 'match environments against the construction-time opening')
+def c_match_copy(repo):
+    t = parse(repo, 'data')
+    fn = find_func(t, '__match__', cls='TexEnv')
+
+    def pred(n):
+        return isinstance(n, ast.Attribute) and n.attr == 'name' and isinstance(n.value, ast.Name) and n.value.id == 'self'
+    replace_expr(fn, pred, lambda n: ast.Attribute(ast.Name('self', ast.Load()), '_begin', ast.Load()))
+    return {'data': src(t)}
+
+
+@control(['C04'], 'children-without-parent', ['R04.c'], 'do not set the parent of the wrappers handed out by children')
+def c_children_parent(repo):
+    t = parse(repo, 'data')
+    for fn in find_funcs(t, 'children', 'TexNode'):
+        try:
+            remove_stmt(fn, lambda s_: isinstance(s_, ast.Assign) and isinstance(s_.targets[0], ast.Attribute) and s_.targets[0].attr == 'parent')
+            return {'data': src(t)}
+        except NotApplicable:
+            continue
+    raise NotApplicable('parent assignment')
+
+
+@control(['C04'], 'iteration-follows-children', ['R04.d'], 'iterate a node over its children instead of its contents')
+def c_iter_children(repo):
+    t = parse(repo, 'data')
+    fn = find_func(t, '__iter__', cls='TexNode')
+
+    def pred(n):
+        return isinstance(n, ast.Attribute) and n.attr == 'contents'
+
+    def make(n):
+        n.attr = 'children'
+        return n
+    replace_expr(fn, pred, make)
+    return {'data': src(t)}
+
+
+# ---- edits (C05, C15)
+
+@control(['C05', 'C15'], 'replace-locates-by-equality', ['R05.a'], 'locate the child to replace with an equality membership test')
+def c_replace_eq(repo):
+    t = parse(repo, 'data')
+    fn = find_func(t, 'replace', cls='TexNode')
+    for n in ast.walk(fn):
+        if isinstance(n, ast.If) and isinstance(n.test, ast.Call) and ast.unparse(n.test.func) == 'any':
+            n.test = ast.parse('child.expr in arg._contents', mode='eval').body
+            return {'data': src(t)}
+    raise NotApplicable('identity test in replace')
+
+
+@control(['C05'], 'replace-inserts-at-front', ['R05.b'], 'insert the replacement at index 0')
+def c_replace_front(repo):
+    t = parse(repo, 'data')
+    fn = find_func(t, 'replace', cls='TexNode')
+    c = _first(fn, lambda n: is_call_attr(n, 'insert') and n.args and isinstance(n.args[0], ast.Call))
+    rm = c.args[0]
+    c.args[0] = ast.Constant(0)
+    # keep the removal
+    parent_stmt = _first(fn, lambda n: isinstance(n, ast.Expr) and n.value is c)
+    for node in ast.walk(fn):
+        for field in ('body', 'orelse'):
+            lst = getattr(node, field, None)
+            if isinstance(lst, list) and parent_stmt in lst:
+                lst.insert(lst.index(parent_stmt), ast.Expr(rm))
+                return {'data': src(t)}
+    raise NotApplicable('insert statement')
+
+
+@control(['C05', 'C15'], 'multi-insert-same-index', ['R05.c'], 'insert every item of a multi-item insertion at the same index')
+def c_multi_insert(repo):
+    t = parse(repo, 'data')
+    fn = find_func(t, 'insert', cls='TexExpr')
+    c = _first(fn, lambda n: is_call_attr(n, 'insert') and isinstance(n.args[0], ast.BinOp))
+    c.args[0] = c.args[0].left
+    return {'data': src(t)}
+
+
+@control(['C15'], 'remove-also-clears-arguments', ['R15.a'], 'let remove also clear the argument list')
+def c_remove_args(repo):
+    t = parse(repo, 'data')
+    fn = find_func(t, 'remove', cls='TexExpr')
+    fn.body.insert(len(fn.body) - 1, ast.parse('self.args.clear()').body[0])
+    return {'data': src(t)}
+
+
+@control(['C15'], 'contents-view-caches', ['R15.b'], 'store the computed contents on the node')
+def c_cache(repo):
+    t = parse(repo, 'data')
+    for fn in find_funcs(t, 'contents', 'TexNode'):
+        if any(isinstance(d, ast.Name) and d.id == 'property' for d in fn.decorator_list):
+            idx = 1 if isinstance(fn.body[0], ast.Expr) and isinstance(fn.body[0].value, ast.Constant) else 0
+            fn.body.insert(idx, ast.parse('self._seen = True').body[0])
+            return {'data': src(t)}
+    raise NotApplicable('contents getter')
+
+
+@control(['C15'], 'inserted-wrappers-stored-raw', ['R15.c'], 'store node wrappers in the content list as they are')
+def c_store_raw(repo):
+    t = parse(repo, 'data')
+    fn = find_func(t, 'insert', cls='TexExpr')
+    lp = _first(fn, lambda n: isinstance(n, ast.For))
+    for i, s_ in enumerate(lp.body):
+        if isinstance(s_, ast.If) and 'TexNode' in ast.unparse(s_.test):
+            del lp.body[i]
+            return {'data': src(t)}
+    raise NotApplicable('unwrap step')
+
+
+@control(['C15'], 'text-view-drops-plain-strings', ['R15.d'], 'admit only tokens in the text view')
+def c_text_tokens(repo):
+    t = parse(repo, 'data')
+    for fn in find_funcs(t, 'text', 'TexNode'):
+        try:
+            replace_expr(fn, lambda n: isinstance(n, ast.Name) and n.id == 'str' and isinstance(getattr(n, 'ctx', None), ast.Load),
+                         lambda n: ast.Name('Token', ast.Load()))
+            return {'data': src(t)}
+        except NotApplicable:
+            continue
+    raise NotApplicable('text predicate')
+
+
+# ---- isolation (C17)
+
+@control(['C17'], 'signature-table-written-while-parsing', ['R17.a'], 'record signatures of parsed commands in the module-level table')
+def c_sig_write(repo):
+    t = parse(repo, 'reader')
+    fn = find_func(t, 'read_command')
+    fn.body.insert(len(fn.body) - 1, ast.parse('SIGNATURES[name] = (len(args), 0)').body[0])
+    return {'reader': src(t)}
+
+
+@control(['C17'], 'mutable-default-mutated', ['R17.b'], 'append to the mutable default of the argument-list constructor')
+def c_default_mut(repo):
+    t = parse(repo, 'data')
+    fn = find_func(t, '__init__', cls='TexArgs')
+    fn.body.append(ast.parse('args.append(None)').body[0])
+    return {'data': src(t)}
+
+
+@control(['C17'], 'competing-set-elements', ['R17.c'], 'let the sizing-command set contain an element and its extension')
+def c_set_compete(repo):
+    t = parse(repo, 'tokens')
+    for st_ in t.body:
+        if isinstance(st_, ast.Assign) and isinstance(st_.targets[0], ast.Name) and st_.targets[0].id == 'BRACKETS_DELIMITERS':
+            st_.value.elts.append(ast.Constant('.|'))
+            return {'tokens': src(t)}
+    raise NotApplicable('BRACKETS_DELIMITERS')
+
+
+@control(['C17'], 'shared-root', ['R17.d'], 'return a module-level root environment from read')
+def c_shared_root(repo):
+    t = parse(repo, 'tex')
+    fn = find_func(t, 'read')
+    t.body.insert(t.body.index(fn), ast.parse("ROOT = TexEnv('[tex]', begin='', end='')").body[0])
+    r = _first(fn, lambda n: isinstance(n, ast.Return))
+    r.value = ast.parse('(ROOT, tex)', mode='eval').body
+    return {'tex': src(t)}
+
+
+@control(['C17'], 'kind-stored-on-possibly-empty-slice', ['R17.e'], 'store a token kind on a zero-length slice handed out by the buffer')
+def c_store_empty(repo):
+    t = parse(repo, 'tokens')
+    fn = _rule_storing(t, 'EscapedComment')
+    c = _first(fn, lambda n: is_call_attr(n, 'forward'))
+    c.args = [ast.Constant(0)]
+    return {'tokens': src(t)}
+
+
+# ---- argument lists (C18)
+
+@control(['C18'], 'reverse-forgets-shadow', ['R18.a'], 'reverse only the list proper')
+def c_reverse(repo):
+    t = parse(repo, 'data')
+    fn = find_func(t, 'reverse', cls='TexArgs')
+    remove_stmt(fn, lambda s_: isinstance(s_, ast.Expr) and is_call_attr(s_.value, 'reverse') and 'all' in ast.unparse(s_.value))
+    return {'data': src(t)}
+
+
+@control(['C18'], 'pop-requires-index', ['R18.b'], 'remove the default index of pop')
+def c_pop_default(repo):
+    t = parse(repo, 'data')
+    fn = find_func(t, 'pop', cls='TexArgs')
+    fn.args.defaults = []
+    return {'data': src(t)}
+
+
+@control(['C18'], 'insert-looks-up-after-writing', ['R18.c'], 'look up the shadow position after the list has been written')
+def c_insert_after(repo):
+    t = parse(repo, 'data')
+    fn = find_func(t, 'insert', cls='TexArgs')
+    idx = None
+    for i, s_ in enumerate(fn.body):
+        if isinstance(s_, ast.Assign) and 'index' in ast.unparse(s_.value) and 'all' in ast.unparse(s_.value):
+            idx = i
+    if idx is None:
+        raise NotApplicable('shadow look-up')
+    st_ = fn.body.pop(idx)
+    for i, s_ in enumerate(fn.body):
+        if isinstance(s_, ast.If) and 'super().insert' in ast.unparse(s_):
+            fn.body.insert(i + 1, st_)
+            return {'data': src(t)}
+    raise NotApplicable('list write')
+
+
+@control(['C18'], 'serialiser-prints-shadow', ['R18.e'], 'serialise the shadow sequence instead of the list')
+def c_str_shadow(repo):
+    t = parse(repo, 'data')
+    fn = find_func(t, '__str__', cls='TexArgs')
+
+    def pred(n):
+        return isinstance(n, ast.Name) and n.id == 'self' and isinstance(getattr(n, 'ctx', None), ast.Load)
+    replace_expr(fn, pred, lambda n: ast.Attribute(ast.Name('self', ast.Load()), 'all', ast.Load()))
+    return {'data': src(t)}
